@@ -38,6 +38,10 @@ PROPS["C13"] = dict(l1_ops=[], l1_ctor=True, l2_algo="C13", n_l1=(1200, 20000), 
 PROPS["C08"] = dict(l1_ops=[], custom="c08", n_l1=(0, 0), n_l2=(0, 0))
 PROPS["C09"] = dict(l1_ops=[], custom="c09", n_l1=(0, 0), n_l2=(0, 0))
 PROPS["C10"] = dict(l1_ops=[], custom="c10", n_l1=(0, 0), n_l2=(0, 0))
+PROPS["C11"] = dict(l1_ops=l1.UNARY_T + l1.UNARY_G + l1.BINARY_GG + l1.BINARY_GT + l1.BINARY_TT +
+                    ["act", "generator", "innerWeights", "vee", "element", "plus", "op*", "t+X"],
+                    l1_algo=["interp_slerp", "avg_bi", "decasteljau"], groups_l1=gen.BUNDLES, groups_l2=gen.BUNDLES,
+                    l2_algo="C11", n_l1=(900, 9000), n_l2=(40, 600))
 PROPS["C07"] = dict(l1_ops=["hat", "vee", "generator", "innerWeights", "bracket", "inner", "sqwnorm", "wnorm"],
                     l2="C07", n_l1=(400, 6000), n_l2=(80, 2000))
 
@@ -126,7 +130,7 @@ def run_property(pid, thorough, seed, res):
     bit_equal = 0
     for dbg in (True, False):
         reqs = []
-        for g in MODELLED:
+        for g in cfg.get("groups_l1", MODELLED):
             if cfg["l1_ops"]:
                 reqs += l1.requests_for(r, g, max(1, n1 // (2 * len(cfg["l1_ops"]))), dbg,
                                         storages=("o", "m", "c"), ops=cfg["l1_ops"],
@@ -162,7 +166,7 @@ def run_property(pid, thorough, seed, res):
     n2 = cfg["n_l2"][ti]
     broken = (not po["ok"]) or bool(l1_bad)
     cs = []
-    for g in ALL_GROUPS:
+    for g in cfg.get("groups_l2", ALL_GROUPS):
         if cfg.get("l2"):
             cs += l2.cases(cfg["l2"], r, g, max(1, n2 // len(ALL_GROUPS)) * (4 if broken else 1))
         if cfg.get("l2_algo"):
